@@ -171,13 +171,31 @@ pub fn run(case: &Value, ctx: &Ctx) -> Outcome {
                     Err(p) => out.fail("npy/damage/prefix-panic", json!({"cut_at": t, "panic": p})),
                 }
             }
-            for e in 1..=max_ext {
-                let mut ext = bytes.clone();
-                ext.extend((0..e).map(|i| (i as u8).wrapping_mul(37).wrapping_add(1)));
-                match read(&ext) {
-                    Ok(Err(_)) => out.check(true, String::new, || Value::Null),
-                    Ok(Ok((s, v))) => out.fail("npy/damage/extension-accepted", json!({"extra": e, "read_shape": s, "read_values": v.len(), "header": header.trim()})),
-                    Err(p) => out.fail("npy/damage/extension-panic", json!({"extra": e, "panic": p})),
+            let fills: Vec<String> = case["fills"].as_array().map(|a| a.iter().map(|x| x.as_str().unwrap().to_string()).collect()).unwrap_or_else(|| vec!["pattern".into()]);
+            let junk = |fill: &str, e: usize| -> Vec<u8> {
+                let cyc = |p: &[u8]| p.iter().cycle().take(e).copied().collect::<Vec<u8>>();
+                match fill {
+                    "zero" => vec![0u8; e],
+                    "ff" => vec![0xffu8; e],
+                    "newline" => vec![b'\n'; e],
+                    "space" => vec![b' '; e],
+                    "crlf" => cyc(b"\r\n"),
+                    "tab" => vec![b'\t'; e],
+                    "formfeed" => cyc(b"\x0c\n "),
+                    "text" => cyc(b"\n1.5 2 3\n"),
+                    "magic" => cyc(b"\x93NUMPY\x01\x00"),
+                    _ => (0..e).map(|i| (i as u8).wrapping_mul(37).wrapping_add(1)).collect(),
+                }
+            };
+            for fill in &fills {
+                for e in 1..=max_ext {
+                    let mut ext = bytes.clone();
+                    ext.extend(junk(fill, e));
+                    match read(&ext) {
+                        Ok(Err(_)) => out.check(true, String::new, || Value::Null),
+                        Ok(Ok((s, v))) => out.fail(format!("npy/damage/extension-accepted/{fill}"), json!({"extra": e, "fill": fill, "read_shape": s, "read_values": v.len(), "header": header.trim()})),
+                        Err(p) => out.fail("npy/damage/extension-panic", json!({"extra": e, "fill": fill, "panic": p})),
+                    }
                 }
             }
             // the three consumers of the binary on the interesting cuts
@@ -193,12 +211,16 @@ pub fn run(case: &Value, ctx: &Ctx) -> Outcome {
                     || format!("npy/damage/cli-{}{}", args[0], if r.panicked() { "-panic" } else { "" }),
                     || json!({"cut_at": c, "of": bytes.len(), "code": r.code, "stderr": r.stderr, "stdout_len": r.stdout.len()}));
             }
-            for (ei, e) in [1usize, itemsize, 16].iter().enumerate() {
-                let mut ext = bytes.clone();
-                ext.extend(std::iter::repeat(1u8).take(*e));
-                let args = &sub[ei % 3];
-                let r = cli::sfs(ctx, args, Some(&ext));
-                out.check(!r.ok() && !r.panicked() && r.stdout.is_empty(), || format!("npy/damage/cli-ext-{}", args[0]), || json!({"extra": e, "code": r.code, "stderr": r.stderr}));
+            let mut k = 0usize;
+            for fill in &fills {
+                for e in [1usize, 2, itemsize, 16] {
+                    let mut ext = bytes.clone();
+                    ext.extend(junk(fill, e));
+                    let args = &sub[k % 3];
+                    k += 1;
+                    let r = cli::sfs(ctx, args, Some(&ext));
+                    out.check(!r.ok() && !r.panicked() && r.stdout.is_empty(), || format!("npy/damage/cli-ext-{}/{fill}", args[0]), || json!({"extra": e, "fill": fill, "code": r.code, "stderr": r.stderr, "stdout_len": r.stdout.len()}));
+                }
             }
             let _ = Scs::from_zeros(1);
         }
